@@ -127,7 +127,9 @@ func c18Jobs(max int) []c18Job {
 	}
 	// option-carrying jobs: the same input with the option set, then (another job) unset
 	for _, it := range corpus() {
-		if len(it.Data) > 40*1024 {
+		// (bigzero-zip.zip is a decompression bomb by design: gigabytes when inflated, tens of gigabytes under the
+		// race detector — the first thorough run had its golden process killed by the kernel's OOM killer)
+		if len(it.Data) > 40*1024 || strings.Contains(it.Path, "bigzero") {
 			continue
 		}
 		for _, f := range it.Formats {
@@ -168,7 +170,7 @@ func c18Jobs(max int) []c18Job {
 	addPair("pair.xml", []byte(`<a x="1"><b>t</b><c/><b>u</b></a>`), `tobytes | from_xml({seq:true})`, `tobytes | from_xml`)
 	addPair("pair2.xml", []byte(`<a x="1"><b>t</b><c/><b>u</b></a>`), `tobytes | from_xml({array:true})`, `tobytes | from_xml({attribute_prefix:"_"})`)
 	for _, it := range corpus() {
-		if len(it.Data) > 30*1024 {
+		if len(it.Data) > 30*1024 || strings.Contains(it.Path, "bigzero") {
 			continue
 		}
 		done := false
